@@ -306,6 +306,7 @@ enum Family {
     F_CTOR,        // range / container / sorted_unique constructors built from the subset
     F_COPY_MOVE,
     F_RELATIONAL,
+    F_ALIAS,       // arguments that are references to the set's own elements; self assignment
     F_SPECIAL,     // unit 6: equal_range ; unit 7: insert(sorted_unique,...)
     F_COUNT
 };
@@ -480,9 +481,9 @@ struct Drv {
 
     // -------------------------------------------------------------- lookups
     template <typename S, typename KK>
-    static void lookups_one(S& s, M const& m, int k, KK const& key, char const* suffix, bool is_const)
+    static void lookups_one(S& s, M const& m, int k, KK const& key, char const* suffix, bool is_const, char const* extra_sit = "")
     {
-        std::string sit = key_sit(m, k);
+        std::string sit = key_sit(m, k) + extra_sit;
         char op[64];
         long long size = (long long)m.size();
         auto name       = [&](char const* base) {
@@ -638,6 +639,7 @@ struct Drv {
                 lookups_one(cs, m, k, hk, "K", true);
             }
         }
+        if (deep) { op_lookups_alias(s, m); }
         if constexpr (C::hetero) {
             if (deep) {
                 for_each_range_key([&](HR hr) {
@@ -905,7 +907,7 @@ struct Drv {
             if constexpr (has_erase_it) { r = s.erase(s.begin() + i); }
         }
         vf::cover(op, hh, true);
-        eq_pos("ret", pos_of(s, r), e, (long long)m.size());
+        if (eq_pos("ret", pos_of(s, r), e, (long long)m.size()) && mit != m.end()) { vf::eq_int("ret.deref", kv(*r), *mit); }
         check_state(s, m);
         return mk.clean();
     }
@@ -929,11 +931,126 @@ struct Drv {
             if constexpr (has_erase_range) { r = s.erase(s.begin() + i, s.begin() + j); }
         }
         vf::cover(op, hh, true);
-        eq_pos("ret", pos_of(s, r), e, (long long)m.size());
+        if (eq_pos("ret", pos_of(s, r), e, (long long)m.size()) && mit != m.end()) { vf::eq_int("ret.deref", kv(*r), *mit); }
         if (vf::want_sample(op)) { vf::sample(op, "%s: [%zu,%zu) -> now %s", C::name, i, j, show(snap(s)).c_str()); }
         check_state(s, m);
         return mk.clean();
     }
+    // -------------------------------------------------------------- arguments aliasing the set's own elements
+    // std::set is well defined when a key/value argument is a reference to one of its own elements; the model is
+    // driven with the same aliasing (m.erase(*mit), m.insert(*mit)).
+    static std::string alias_sit(M const& m, std::size_t i)
+    {
+        char const* p = m.size() == 1 ? "pos-only" : i == 0 ? "pos-first" : i + 1 == m.size() ? "pos-last" : "pos-middle";
+        return std::string("aliases-own-element,") + p + "," + fill(m);
+    }
+    static bool op_erase_alias(Set& s, M& m, std::size_t i)
+    {
+        Mark mk;
+        std::string sit = alias_sit(m, i);
+        vf::crumb(C::name, "erase(key)", sit.c_str(), "S=%s key=*(begin+%zu)", show_m(m).c_str(), i);
+        std::uint64_t hh = h(m, i, 0xA11A5);
+        auto mit         = std::next(m.begin(), (long)i);
+        auto e           = m.erase(*mit);
+        Key const& own   = *(std::as_const(s).begin() + i);
+        auto r           = s.erase(own);
+        vf::cover("erase(key)", hh, true);
+        vf::eq_int("ret", r, e);
+        check_state(s, m);
+        return mk.clean();
+    }
+    // kind 0 insert(const&), 2 emplace(args): the value is one of the set's own elements -> (iterator to it, false)
+    static bool op_insert_alias(Set& s, M& m, std::size_t i, int kind)
+    {
+        Mark mk;
+        std::string sit = alias_sit(m, i);
+        char const* op  = ins_name(kind);
+        vf::crumb(C::name, op, sit.c_str(), "S=%s value=*(begin+%zu)", show_m(m).c_str(), i);
+        std::uint64_t hh = h(m, i, 0xA11A6 + (std::uint64_t)kind);
+        auto mr          = m.insert(*std::next(m.begin(), (long)i));
+        Key const& own   = *(std::as_const(s).begin() + i);
+        etl::pair<It, bool> r{};
+        if (kind == 0) {
+            r = s.insert(own);
+        } else {
+            r = s.emplace(own);
+        }
+        vf::cover(op, hh, true);
+        vf::eq_bool("ret.second", r.second, mr.second);
+        eq_pos("ret.first", pos_of(s, r.first), mpos(m, mr.first), (long long)m.size());
+        check_state(s, m);
+        return mk.clean();
+    }
+    // kind 0 insert(hint,const&), 2 emplace_hint(hint,args)
+    static bool op_hint_alias(Set& s, M& m, std::size_t i, std::size_t hp, int kind)
+    {
+        if constexpr (has_hint) {
+            Mark mk;
+            std::string sit = alias_sit(m, i) + (hp == i ? ",hint=lower_bound" : ",hint-elsewhere");
+            char const* op  = kind == 0 ? "insert(hint,const&)" : "emplace_hint(hint,args)";
+            vf::crumb(C::name, op, sit.c_str(), "S=%s value=*(begin+%zu) hint=begin+%zu", show_m(m).c_str(), i, hp);
+            std::uint64_t hh = h(m, i * 64 + hp, 0xA11A8 + (std::uint64_t)kind);
+            auto mit         = m.insert(std::next(m.begin(), (long)hp), *std::next(m.begin(), (long)i));
+            Key const& own   = *(std::as_const(s).begin() + i);
+            CIt hint         = std::as_const(s).begin() + hp;
+            It r{};
+            if (kind == 0) {
+                r = s.insert(hint, own);
+            } else {
+                r = s.emplace_hint(hint, own);
+            }
+            vf::cover(op, hh, true);
+            eq_pos("ret", pos_of(s, r), mpos(m, mit), (long long)m.size());
+            check_state(s, m);
+            return mk.clean();
+        } else {
+            return true;
+        }
+    }
+    static void op_lookups_alias(Set& s, M const& m)
+    {
+        Set const& cs = s;
+        for (std::size_t i = 0; i < m.size() && i < cs.size(); ++i) {
+            Key const& own = *(cs.begin() + i);
+            int k          = *std::next(m.begin(), (long)i);
+            lookups_one(s, m, k, own, "key", false, ",aliases-own-element");
+            lookups_one(cs, m, k, own, "key", true, ",aliases-own-element");
+        }
+    }
+    static void op_self_assign(M const& m0, unsigned order)
+    {
+        fresh(m0, order, [&](Set& s, M& m) {
+            vf::crumb(C::name, "operator=(set const&)", (std::string("self,") + fill(m)).c_str(), "S=%s", show_m(m).c_str());
+            Set const& self = s;
+            s               = self;
+            vf::cover("operator=(set const&)", h(m, 0xfffff), true);
+            if (check_state(s, m)) { use_after(s, m); }
+        });
+        fresh(m0, order, [&](Set& s, M& m) {
+            // self move assignment leaves a valid but unspecified value: only validity is required (sorted, unique, consistent
+            // size, comparator state kept is NOT required), then the object must be fully reusable
+            vf::crumb(C::name, "operator=(set&&)", (std::string("self,") + fill(m)).c_str(), "S=%s", show_m(m).c_str());
+            Set& self = s;
+            s         = std::move(self);
+            vf::cover("operator=(set&&)", h(m, 0xffffe), true);
+            std::vector<int> a = snap(s);
+            if (s.size() > cap) { vf::diverge("size-exceeds-capacity", vf::to_su(s.size()), vf::to_su(cap)); }
+            vf::eq_int("end-begin", (long long)(s.end() - s.begin()), (long long)s.size());
+            if constexpr (C::n_states <= 1) {
+                for (std::size_t i = 0; i + 1 < a.size(); ++i) {
+                    if (!m.key_comp()(a[i], a[i + 1])) {
+                        vf::diverge("order:not-ascending", show(a), "strictly ascending under Compare");
+                        break;
+                    }
+                }
+                vf::crumb(C::name, "clear()", "after-self-move", "S=%s", show(a).c_str());
+                s.clear();
+                M em = like(m);
+                if (check_state(s, em)) { use_after(s, em); }
+            }
+        });
+    }
+
     static bool op_clear(Set& s, M& m)
     {
         Mark mk;
@@ -1485,6 +1602,38 @@ struct Drv {
                 }
             });
             break;
+        case F_ALIAS:
+            for (std::size_t i = 0; i < m0.size(); ++i) {
+                fresh(m0, order + (unsigned)i, [&](Set& s, M& m) {
+                    if (op_erase_alias(s, m, i)) { use_after(s, m); }
+                });
+                for (int kind : {0, 2}) {
+                    fresh(m0, order + (unsigned)i, [&](Set& s, M& m) { op_insert_alias(s, m, i, kind); });
+                    if constexpr (has_hint) {
+                        for (std::size_t hp = 0; hp <= m0.size(); ++hp) {
+                            fresh(m0, order + (unsigned)i, [&](Set& s, M& m) { op_hint_alias(s, m, i, hp, kind); });
+                        }
+                    }
+                }
+            }
+            for (unsigned o = 0; o < 2; ++o) {
+                fresh(m0, order + o, [&](Set& s, M& m) { op_lookups_alias(s, m); });
+            }
+            // erase a sub-range, then keep working through the position the returned iterator designates
+            // (no iterator stability is assumed: only contents, counts and offsets are compared)
+            for (std::size_t i = 0; i <= m0.size(); ++i) {
+                for (std::size_t j = i; j <= m0.size(); ++j) {
+                    fresh(m0, order + (unsigned)(i + j), [&](Set& s, M& m) {
+                        bool c = ((i + j) & 1) != 0;
+                        if (!(c ? has_erase_crange : has_erase_range)) { c = !c; }
+                        if (op_erase_range(s, m, i, j, c) && i < m.size()) {
+                            if (op_erase_alias(s, m, i)) { op_lookups_alias(s, m); }
+                        }
+                    });
+                }
+            }
+            op_self_assign(m0, order);
+            break;
         case F_SPECIAL: op_special(m0, order); break;
         default: break;
         }
@@ -1517,7 +1666,14 @@ struct Drv {
                 unsigned ins_w = bias == 1 ? 55 : bias == 2 ? 25 : 40;
                 if (pick < ins_w) {
                     unsigned which = (unsigned)r.below(8);
-                    if (which < 3) {
+                    if (which < 3 && !m.empty() && r.chance(1, 6)) {
+                        std::size_t i = (std::size_t)r.below(m.size());
+                        if (has_hint && r.coin()) {
+                            ok = op_hint_alias(s, m, i, (std::size_t)r.below(m.size() + 1), which == 1 ? 0 : (int)which);
+                        } else {
+                            ok = op_insert_alias(s, m, i, which == 1 ? 0 : (int)which);
+                        }
+                    } else if (which < 3) {
                         if (insert_issuable(m, k)) { ok = op_insert(s, m, k, (int)which); }
                     } else if (which < 6) {
                         if (has_hint && insert_issuable(m, k)) {
@@ -1533,7 +1689,9 @@ struct Drv {
                     }
                 } else if (pick < 80) {
                     unsigned which = (unsigned)r.below(10);
-                    if (which < 4) {
+                    if (which < 4 && !m.empty() && r.chance(1, 3)) {
+                        ok = op_erase_alias(s, m, (std::size_t)r.below(m.size()));
+                    } else if (which < 4) {
                         ok = op_erase_key(s, m, (int)r.range(0, U + 1));
                     } else if (which < 6) {
                         if (!m.empty()) { ok = op_erase_it(s, m, (std::size_t)r.below(m.size()), r.coin()); }
